@@ -13,7 +13,7 @@ LEVEL = "exploration"
 WORKERS = {"quick": 8, "thorough": 16}
 BUDGET = {"quick": 150, "thorough": 420}
 MIN_NONTRIVIAL = {"quick": 3000, "thorough": 60000}
-REQUIRED_HOOKS = ["program-reuse", "size-probe", "evaluate:I", "evaluate:C", "index-sweep", "key-sweep", "regex", "law"]
+REQUIRED_HOOKS = ["program-reuse", "size-probe", "macro-error-position", "evaluate:I", "evaluate:C", "index-sweep", "key-sweep", "regex", "law"]
 RULE = (
     "Well-typed programs over lists and maps of int/uint/bool/string (nested to depth 2) and strings from the type-directed generator restricted to "
     "indexing, in, size, concatenation, map construction/lookup/has, contains/startsWith/endsWith, map/filter/all/exists/exists_one, with injected failing "
@@ -378,6 +378,31 @@ def size_probes(acc, ctx):
     acc.exhaustive.append("%d list/map/string programs x sizes %s" % (len(SIZE_PROBES), SIZES if ctx.thorough else SIZES[:6]))
 
 
+def macro_error_positions(acc, ctx):
+    """Every macro x every list over {match, no match, failing element} up to length 4 x several failing bodies: a comprehension
+    does not stop early, so a failing element anywhere makes map/filter/exists_one an error; all/exists absorb it only when another
+    element decides.  (Complete enumeration; the reference evaluator gives the expectation.)"""
+    import itertools
+
+    c = core.celpy()
+    parser = c.CELParser(tree_class=c.TranspilerTree)
+    from .. import larkconv
+
+    bodies = ["1 / x == 1", "[7, 1][x] == 1", "{1: 1, 2: 2}[x] == 1", "x == 1 || 1 / x == 1", "1 / x == 1 && x == 1"]
+    k = 0
+    for m in ("map", "filter", "exists_one", "all", "exists"):
+        for body in bodies:
+            node = larkconv.with_simple_literals(larkconv.conv(parser.parse(f"l.{m}(x, {body})")))
+            for ln in range(1, 5):
+                for seq in itertools.product((1, 2, 0), repeat=ln):
+                    k += 1
+                    if not ctx.mine(k):
+                        continue
+                    acc.hook("macro-error-position")
+                    check_program(acc, node, {"l": ("list", tuple(("int", v) for v in seq))}, "macro-error-position", cached=True)
+    acc.exhaustive.append("5 macros x 5 bodies x every list over {match, no match, failing element} up to length 4")
+
+
 def fixed_reuse(acc, ctx):
     c = core.celpy()
     parser = c.CELParser(tree_class=c.TranspilerTree)
@@ -397,6 +422,7 @@ def run(ctx):
     core.celpy()
     fixed_reuse(acc, ctx)
     size_probes(acc, ctx)
+    macro_error_positions(acc, ctx)
     index_sweep(acc, ctx)
     key_sweep(acc, ctx)
     regex_checks(acc, ctx, ctx.scale(2400, 80000))
